@@ -148,8 +148,18 @@ pub static OPS_DONE: AtomicU64 = AtomicU64::new(0);
 static FIRED_PERTURB: AtomicU32 = AtomicU32::new(0);
 
 thread_local! {
+    static QUIET: Cell<bool> = Cell::new(false);
     static ROLE: Cell<u8> = Cell::new(0);
     static PENDING_PARK: Cell<Option<(u32, u64)>> = Cell::new(None);
+}
+
+/// Run `f` with the calling thread's file-system calls neither recorded, injected nor perturbed
+/// (for the harness's own reads of the store directory).
+pub fn quiet<T>(f: impl FnOnce() -> T) -> T {
+    let prev = QUIET.with(|c| c.replace(true));
+    let r = f();
+    QUIET.with(|c| c.set(prev));
+    r
 }
 
 /// Set the role of the calling thread (0 = none; such threads are recorded but never perturbed).
@@ -248,6 +258,9 @@ fn park(m: u32, timeout_us: u64) {
 extern "C" fn pre_cb(ev: *const Event, act: *mut Action) {
     let ev = unsafe { &*ev };
     let act = unsafe { &mut *act };
+    if QUIET.with(|c| c.get()) {
+        return;
+    }
     // ---- injector
     if INJECT_AT.load(SeqCst) >= 0 || FAIL_NEXT_WRITE_FD.load(SeqCst) >= 0 {
         if ev.kind == EV_WRITE && FAIL_NEXT_WRITE_FD.load(SeqCst) == ev.fd {
@@ -346,7 +359,7 @@ extern "C" fn post_cb(ev: *const Event, result: i64, err: i32) {
             }
         }
     };
-    if !RECORDING.load(SeqCst) {
+    if !RECORDING.load(SeqCst) || QUIET.with(|c| c.get()) {
         return;
     }
     let kind = match ev.kind {
@@ -398,6 +411,11 @@ pub fn record_start() {
     SITE_COUNTER.store(0, SeqCst);
     CUR_OP.store(-1, SeqCst);
     RECORDING.store(true, SeqCst);
+}
+
+/// Current length of the log.
+pub fn log_len() -> usize {
+    LOG.lock().unwrap().len()
 }
 
 /// Stop recording and return the log.
